@@ -16,7 +16,7 @@ func init() {
 	register("c10", func(args []string) int {
 		f := parseFlags("c10", args)
 		rep := newReport("C10", f)
-		rep.Rule = "K1: region codec (ids up to 2^55, counts 1..2^32-1 incl. 253..257), free-list operations and allocator scripts vs. the Coq model; twin executions H;reopen;K vs H;K on two disks (exact allocator state + overwrite mapping + root compared right after the reopen, every result of K, all reads, final state and state after a final reopen); histories include fragmented free lists spanning several free-list pages, regions of 255+ pages, many pending overwrites (mapping spanning several pages) and unbounded files grown past the initially mapped 64 KiB. Non-trivial: distinct (config, op statistics)."
+		rep.Rule = "K1: region codec (ids up to 2^55, counts 1..2^32-1 incl. 253..257), free-list operations and allocator scripts vs. the Coq model; twin executions H;reopen;K vs H;K on two disks (exact allocator state + overwrite mapping + root compared right after the reopen, every result of K, all reads, final state and state after a final reopen); histories include fragmented free lists spanning several free-list pages, regions of 255+ pages, many pending overwrites (mapping spanning several pages) unbounded files grown past the initially mapped 64 KiB, and full bounded files whose free-list pages live in the overflow area past the size limit. Non-trivial: distinct (config, op statistics)."
 		m, err := model.Start()
 		if err != nil {
 			fmt.Fprintln(os.Stderr, err)
@@ -69,7 +69,7 @@ func init() {
 			prof.Reopen = false
 			prof.MaxTx = 6
 			var H []engine.Op
-			switch i % 4 {
+			switch i % 5 {
 			case 0:
 				// heavy fragmentation: many pages, every other one freed -> multi page free lists
 				cfg = engine.Config{PageSize: 1024, MaxSize: 0, InitMetaArea: uint32(hr.Intn(3) * 4)}
@@ -84,6 +84,17 @@ func init() {
 				// many pending overwrites: mapping pages (73 entries per 1 KiB page)
 				cfg = engine.Config{PageSize: 1024, MaxSize: 0, InitMetaArea: 8}
 				H = overwriteOps(hr, 80+hr.Intn(120))
+			case 3:
+				// a bounded file that is completely full; an overflow-enabled transaction frees pages, its
+				// free-list pages live past the size limit: the file on disk is larger than MaxSize at the reopen
+				cfg = engine.Config{PageSize: 1024, MaxSize: uint64(64+hr.Intn(64)) * 1024, InitMetaArea: uint32(hr.Intn(2) * 2)}
+				H = fillAllOps(hr)
+				H = append(H, engine.Op{Kind: "begin", Overflow: true})
+				for k := 1 + hr.Intn(6); k > 0; k-- {
+					H = append(H, engine.Op{Kind: "free", P: hr.Intn(1 << 16)})
+				}
+				H = append(H, engine.Op{Kind: "commit"})
+				rep.count("scenario:full-bounded-file-with-overflow-area", 1)
 			default:
 				H = gen.History(hr, prof)
 			}
@@ -96,6 +107,18 @@ func init() {
 		rep.ModelCalls = m.N
 		return rep.finish(f)
 	})
+}
+
+// fillAllOps allocates until the file is full (allocations that do not fit fail and change nothing).
+func fillAllOps(r *rand.Rand) []engine.Op {
+	ops := []engine.Op{{Kind: "begin"}}
+	for _, n := range []int{64, 32, 16, 8, 4, 2, 1, 1, 1, 1, 1, 1} {
+		ops = append(ops, engine.Op{Kind: "alloc", N: n})
+	}
+	for i := 0; i < 6; i++ {
+		ops = append(ops, engine.Op{Kind: "setfull", P: r.Intn(1 << 16), Seed: 1 + r.Intn(1000)})
+	}
+	return append(ops, engine.Op{Kind: "commit"})
 }
 
 func fragmentOps(r *rand.Rand, pages int) []engine.Op {
